@@ -136,6 +136,72 @@ theorem canonical_recognized (k : Kernel) (tys : List Nat) (hk : kernelTyped k t
     recognize true (equivalentRegion k tys) = some k :=
   region_recognized k tys hk
 
+/-! ## the non-fused guard of `LowerLinalgBody` (bodies mixing kernel and arith ops) -/
+
+/-- a body that is not exactly `[one op, yield]` — a fused kernel (kernel op followed by further kernel or
+arith ops), or an empty body — is left unchanged, whatever its ops are -/
+theorem lower_fused_unchanged (b : MBody) (h : b.ops.length ≠ 1) : lowerResult b = b := by
+  have : lowerLinalgBody b = none := by
+    unfold lowerLinalgBody
+    split
+    · next hops => simp [hops] at h
+    · rfl
+  simp [lowerResult, this]
+
+/-- a body whose first op is not a kernel op is left unchanged (a kernel op later in the body does not count) -/
+theorem lower_arith_first_unchanged (b : MBody) (op : BOp) (rest : List MOp) (h : b.ops = .arith op :: rest) :
+    lowerResult b = b := by
+  have : lowerLinalgBody b = none := by
+    unfold lowerLinalgBody
+    split
+    · next hops => rw [h] at hops; cases hops
+    · rfl
+  simp [lowerResult, this]
+
+/-- on a single-kernel body the pattern is `expand` -/
+theorem lower_single (kb : KBody) (h : kb.kernel.isParsable = true) :
+    lowerLinalgBody kb.toMBody = some (expand kb) := by
+  simp [lowerLinalgBody, KBody.toMBody, h, expand]
+
+/-- The property for `LowerLinalgBody` on arbitrary bodies (kernel and arith ops in any number and order):
+the body after the pattern computes the same function. -/
+def lower_statement : Prop :=
+  ∀ (b : MBody) (ins : List Val), ins.map Val.w = b.args → evalMBody (lowerResult b) ins = evalMBody b ins
+
+/-- `lower_preserves_partial`: every body — fused bodies of any length, kernel ops in any position, all
+widths and inputs — keeps its function, under the clause `canonical` for the one case in which the pattern
+fires (the body is a single kernel op: it must be well typed and wired canonically, DC18a). -/
+theorem lower_preserves_partial (b : MBody) (ins : List Val) (hins : ins.map Val.w = b.args)
+    (canonical : ∀ kb : KBody, b = kb.toMBody →
+      kb.canonical = true ∧ kernelTyped kb.kernel (kb.opTypes ++ [kb.resWidth]) = true) :
+    evalMBody (lowerResult b) ins = evalMBody b ins := by
+  unfold lowerResult
+  cases h : lowerLinalgBody b with
+  | none => rfl
+  | some r =>
+    obtain ⟨kb, hb, _, hr⟩ := lowerLinalgBody_some h
+    obtain ⟨hc, ht⟩ := canonical kb hb
+    have hins' : ins.map Val.w = kb.args := by rw [hins, hb]; rfl
+    simp only
+    rw [hr, evalMBody_ofBody, expand_sound_partial kb ins hins' ht hc, hb, evalMBody_ofKBody]
+
+theorem lower_statement_fails : ¬ lower_statement := by
+  intro h
+  have := h dc18aBody.toMBody [⟨32, 0#32⟩, ⟨32, 1#32⟩, ⟨32, 0#32⟩] (by decide)
+  revert this
+  decide
+
+/-- non-vacuity: the fused body `kernel.mul a, b ; kernel.add %3, c ; yield` (a*b + c) -/
+def fusedMulAdd : MBody :=
+  ⟨[32, 32, 32], [.kern .mul [.val 0, .val 1] [32, 32] 32, .kern .add [.val 3, .val 2] [32, 32] 32], [.val 4]⟩
+
+example : lowerResult fusedMulAdd = fusedMulAdd := by decide
+example : evalMBody fusedMulAdd [⟨32, 3#32⟩, ⟨32, 5#32⟩, ⟨32, 7#32⟩] = some [⟨32, 22#32⟩] := by decide
+example : ∀ kb : KBody, fusedMulAdd = kb.toMBody → False := by
+  intro kb h
+  have := congrArg (fun b => b.ops.length) h
+  simp [fusedMulAdd, KBody.toMBody] at this
+
 /-! ## dispatch (`dispatch-kernels`) -/
 
 /-- The property for dispatch: the accelerator named in `library_call` is one of the module's
